@@ -218,10 +218,9 @@ def close(a, b, tol_rel, floor, what):
         return {"kind": "shape", "what": what, "a_shape": list(a.shape), "b_shape": list(b.shape)}
     if a.size == 0:
         return None
-    if not (np.all(np.isfinite(a)) and np.all(np.isfinite(b))):
-        if np.array_equal(np.isfinite(a), np.isfinite(b)):
-            return None if np.allclose(a[np.isfinite(a)], b[np.isfinite(b)], rtol=tol_rel, atol=0) else \
-                {"kind": "nonfinite-mismatch", "what": what}
+    if not np.all(np.isfinite(a)):
+        return None      # the reference itself is not a number (overflow of an extreme input): nothing to compare
+    if not np.all(np.isfinite(b)):
         return {"kind": "nonfinite", "what": what}
     scale = max(floor, float(np.max(np.abs(a))), float(np.max(np.abs(b))))
     diff = np.abs(a - b)
@@ -684,7 +683,20 @@ def eval_block_case(model, case):
     raise ValueError(t)
 
 
+def _valid_shells(shell_jsons):
+    """every column of every coefficient matrix is non-zero (a zero column has no contraction norm)"""
+    for sj in shell_jsons:
+        k, m = len(sj["exps"]), len(sj["coeffs"][0])
+        if any(all(F(sj["coeffs"][r][c]) == 0 for r in range(k)) for c in range(m)):
+            return False
+        if len(set(sj["exps"])) != k:
+            return False
+    return True
+
+
 def eval_case(model, case):
+    if not _valid_shells(case["basis"] if case["kind"] == "basis" else case["shells"]):
+        return {"detail": None, "nontrivial": False, "tag": "invalid (zero column)"}     # only reachable by shrinking
     if case["kind"] == "basis":
         return eval_basis_case(model, case)
     return eval_block_case(model, case)
